@@ -2435,7 +2435,7 @@ class Processor:
                         yield node_coord
                     continue
 
-                if next_coord.node is None:
+                if next_coord.node is None and depth + 1 >= len(segments):
                     self.logger.debug((
                         "Relaying a None element <{}>{} from the data."
                         ).format(segment_type, except_segment),
@@ -2444,6 +2444,19 @@ class Processor:
                     )
                     yield next_coord
                     continue
+
+                if (next_coord.node is None
+                    and segments[depth + 1][0] in [
+                        PathSegmentTypes.INDEX, PathSegmentTypes.KEY]
+                    and isinstance(next_coord.parent, (dict, list))
+                ):
+                    # A null placeholder stands where the path continues;
+                    # build the missing tail beneath it rather than
+                    # mistaking the placeholder for the requested node.
+                    next_coord.parent[next_coord.parentref] = (
+                        Nodes.build_next_node(yaml_path, depth + 1, value))
+                    next_coord.node = (
+                        next_coord.parent[next_coord.parentref])
 
                 self.logger.debug((
                     "Found element <{}>{} in the data; recursing into it..."
